@@ -1,5 +1,6 @@
 (* C16 — FormatString is a lossless, canonically indented re-layout of String. *)
 From Anytype Require Import Base FloatBits Value GoInt Utf8 Json JsonDoc JsonRefProofs SerializeProofs FormatProofs FormatModel.
+From Anytype Require Import Heap HeapExt HeapExtProofs.
 From Anytype Require Import FloatText.
 From Anytype Require Import SourceTables SourceTablesProofs. From AnytypeGen Require Import GenTables.
 Local Open Scope Z_scope.
@@ -81,6 +82,18 @@ Theorem C16_guards_generated :
   forallb (fun ng => implb (guard_recognised (snd ng)) (guard_ok (snd ng))) gen_format_guards = true.
 Proof. vm_compute. reflexivity. Qed.
 
+
+(* heap level (HeapExt.v): FormatString(n) on a container that lives in a heap, at any point of any program: panics exactly
+   outside 0..10, otherwise denotes the data String() denotes; the state is untouched either way *)
+Theorem C16_heap_format : forall (fadd fmul fdiv : Z -> Z -> Z) (of_int : Z -> Z) s r n v t, nth_error (st_env s) r = Some v ->
+  reify (fuel_of (st_heap s)) (st_heap s) v = Some t ->
+  xstep_core fadd fmul fdiv of_int s (XFormat r n) = (s, if ((n <? 0) || (10 <? n))%Z then XPan else XRet (XTree (vcanon t))).
+Proof. exact xformat_step. Qed.
+Theorem C16_heap_format_panics_iff : forall (fadd fmul fdiv : Z -> Z -> Z) (of_int : Z -> Z) s r n v t, nth_error (st_env s) r = Some v ->
+  reify (fuel_of (st_heap s)) (st_heap s) v = Some t ->
+  (snd (xstep_core fadd fmul fdiv of_int s (XFormat r n)) = XPan <-> (n < 0 \/ 10 < n)%Z).
+Proof. exact xformat_panics_iff. Qed.
+
 Print Assumptions C16_canonical.
 Print Assumptions C16_nonempty.
 Print Assumptions C16_valid.
@@ -94,3 +107,5 @@ Print Assumptions C16_object_lines.
 Print Assumptions C16_layout_keeps_meaning.
 Print Assumptions C16_guard_checker_sound.
 Print Assumptions C16_guards_generated.
+Print Assumptions C16_heap_format.
+Print Assumptions C16_heap_format_panics_iff.
